@@ -30,6 +30,11 @@ that fact on the parsed trees and are skipped when it does not hold.
 
   if not C: A else: B               ==>          if C: B else: A    (only when both arms are present)
 
+  L[a:] = [x]                       ==>          del L[a:]; L.append(x)
+
+  def make(p): def f(self): B(p); return f
+  class C: m = make(A)              ==>          class C: def m(self): B(A)          (closure factory instantiated)
+
   a, b = L[-2:]; del L[-2:]         ==>          b = L.pop(); a = L.pop()
 
   if C: ...; return V
@@ -489,6 +494,15 @@ class Normaliser:
             st.body = self.lookup_or_return(st.body)
             self.unroll_literal_loops(st)
             self.list_builders(st)
+        if isinstance(st, ast.Assign) and len(st.targets) == 1 and isinstance(st.targets[0], ast.Subscript) and isinstance(st.targets[0].slice, ast.Slice) \
+                and st.targets[0].slice.upper is None and st.targets[0].slice.step is None and st.targets[0].slice.lower is not None \
+                and isinstance(st.value, ast.List) and len(st.value.elts) == 1 and not isinstance(st.value.elts[0], ast.Starred) and _movable(st.targets[0].value):
+            # L[a:] = [x]   ==>   del L[a:]; L.append(x)
+            tgt = st.targets[0]
+            d = ast.Delete(targets=[ast.Subscript(value=tgt.value, slice=tgt.slice, ctx=ast.Del())])
+            ap = ast.Expr(value=ast.Call(func=ast.Attribute(value=copy.deepcopy(tgt.value), attr="append", ctx=ast.Load()), args=[st.value.elts[0]], keywords=[]))
+            self.hit("tail-slice-assign->del+append")
+            return [ast.fix_missing_locations(ast.copy_location(d, st)), ast.fix_missing_locations(ast.copy_location(ap, st))]
         if isinstance(st, ast.Try):
             r = self.try_lookup(st)
             if r is not None:
@@ -645,8 +659,52 @@ class _Expr(ast.NodeTransformer):
         return node
 
 
+def instantiate_factories(trees: list[ast.Module], n: Normaliser) -> None:
+    """def make(p): def f(self, ...): BODY(p); return f            class C:
+       class C: m = make(A)                               ==>         def m(self, ...): BODY(A)
+    (module-level factory whose body is one nested def and its return; literal/name arguments)"""
+    factories: dict[str, tuple[ast.FunctionDef, ast.FunctionDef]] = {}
+    for t in trees:
+        for st in t.body:
+            if isinstance(st, ast.FunctionDef) and not st.decorator_list:
+                body = [x for x in st.body if not (isinstance(x, ast.Expr) and isinstance(x.value, ast.Constant))]
+                a = st.args
+                if len(body) == 2 and isinstance(body[0], ast.FunctionDef) and isinstance(body[1], ast.Return) and isinstance(body[1].value, ast.Name) \
+                        and body[1].value.id == body[0].name and not (a.vararg or a.kwarg or a.kwonlyargs or a.defaults or a.posonlyargs) and not body[0].decorator_list:
+                    params = {x.arg for x in a.args}
+                    inner = body[0]
+                    rebinds = any(isinstance(x, ast.Name) and x.id in params and isinstance(x.ctx, (ast.Store, ast.Del)) for x in ast.walk(inner)) \
+                        or any(x.arg in params for x in inner.args.args + inner.args.kwonlyargs + inner.args.posonlyargs) \
+                        or any(isinstance(x, (ast.Nonlocal, ast.Global)) for x in ast.walk(inner))
+                    if not rebinds:
+                        factories[st.name] = (st, inner)
+    if not factories:
+        return
+    for t in trees:
+        for cls in ast.walk(t):
+            if not isinstance(cls, ast.ClassDef):
+                continue
+            for i, st in enumerate(cls.body):
+                if isinstance(st, ast.Assign) and len(st.targets) == 1 and isinstance(st.targets[0], ast.Name) and isinstance(st.value, ast.Call) \
+                        and isinstance(st.value.func, ast.Name) and st.value.func.id in factories and not st.value.keywords \
+                        and all(_movable(a) for a in st.value.args):
+                    fac, inner = factories[st.value.func.id]
+                    if len(st.value.args) != len(fac.args.args):
+                        continue
+                    m = {p.arg: a for p, a in zip(fac.args.args, st.value.args)}
+                    new = copy.deepcopy(inner)
+                    new.name = st.targets[0].id
+                    new.body = [_Subst(m).visit(b) for b in new.body]
+                    for x in ast.walk(new):
+                        ast.copy_location(x, st) if hasattr(x, "lineno") else None
+                    ast.fix_missing_locations(new)
+                    cls.body[i] = new
+                    n.hit("closure-factory-instantiated")
+
+
 def normalise_idioms(trees: list[ast.Module]) -> dict[str, int]:
     n = Normaliser(trees)
+    instantiate_factories(trees, n)
     for t in trees:
         t.body = n.block(t.body)
         ast.fix_missing_locations(t)
